@@ -4,6 +4,7 @@ import Proofs.ExpReal
 import Proofs.TrigReal
 import Proofs.HypReal
 import Proofs.BladeReal
+import Proofs.L1Norm
 
 /-! # C16 — series functions on blades with scalar square, scalars, and the scaling-and-squaring structure
 
@@ -105,5 +106,38 @@ theorem exp_on_blade_matches_closed_form (B : A) (t : ℚ) (h : B * B = (-(t ^ 2
     ∧ |Real.cos (t : ℝ) - ((∑ j ∈ range N, (-1) ^ j * t ^ (2 * j) / ((2 * j).factorial : ℚ) : ℚ) : ℝ)| ≤ |(t : ℝ)| ^ (2 * N) / ((2 * N).factorial : ℝ) * 2
     ∧ |Real.sin (t : ℝ) - (t : ℝ) * ((∑ j ∈ range N, (-1) ^ j * t ^ (2 * j) / ((2 * j + 1).factorial : ℚ) : ℚ) : ℝ)| ≤ |(t : ℝ)| ^ (2 * N) / ((2 * N).factorial : ℝ) * 2 :=
   BladeReal.exp_on_blade_close B t h N ht
+
+/-! ### General multivectors: the norm behind the scaling of `exp` (model `Cl n sig` over ℚ, every `n`, every signature with `|sig i| ≤ 1`) -/
+
+/-- **`np.sum(np.abs(x.value))` is submultiplicative**: `‖A·B‖₁ ≤ ‖A‖₁·‖B‖₁` for all multivectors — the reason the repaired `exp` may
+scale by it (the largest coefficient, used before fix 08bddc0, is not) -/
+theorem l1_submultiplicative {n : Nat} {sig : Nat → ℚ} (hsig : ∀ i, |sig i| ≤ 1) (X Y : Cl n sig) :
+    L1.l1 (X * Y) ≤ L1.l1 X * L1.l1 Y := L1.l1_mul_le hsig X Y
+theorem l1_is_a_norm {n : Nat} {sig : Nat → ℚ} (X Y : Cl n sig) (q : ℚ) :
+    (L1.l1 X = 0 → X = 0) ∧ L1.l1 (X + Y) ≤ L1.l1 X + L1.l1 Y ∧ L1.l1 (q • X) = |q| * L1.l1 X ∧ L1.l1 (1 : Cl n sig) = 1 :=
+  ⟨L1.l1_eq_zero, L1.l1_add_le X Y, L1.l1_smul q X, L1.l1_one⟩
+
+/-- **the truncations of the exponential series of any multivector form a Cauchy sequence with the scalar series' modulus**:
+`‖exp_M(X) − exp_N(X)‖₁ ≤ Σ_{N ≤ k < M} ‖X‖₁^k/k!` -/
+theorem exp_truncations_cauchy {n : Nat} {sig : Nat → ℚ} (hsig : ∀ i, |sig i| ≤ 1) (X : Cl n sig) (N M : Nat) (h : N ≤ M) :
+    L1.l1 (expTrunc M X - expTrunc N X) ≤ L1.sexp M (L1.l1 X) - L1.sexp N (L1.l1 X) := L1.expTrunc_sub_le hsig X N M h
+
+/-- **15 terms suffice after the scaling**: for `‖Y‖₁ ≤ 1` every longer truncation is within `2/15! < 1.6·10⁻¹²` of the coded one -/
+theorem exp_15_terms_suffice_general {n : Nat} {sig : Nat → ℚ} (hsig : ∀ i, |sig i| ≤ 1) (Y : Cl n sig) (hY : L1.l1 Y ≤ 1)
+    (M : Nat) (hM : 15 ≤ M) : L1.l1 (expTrunc M Y - expTrunc 15 Y) ≤ 16 / 10 ^ 13 :=
+  (L1.exp_15_terms_suffice hsig Y hY M hM).trans (le_of_lt L1.two_div_fact15)
+
+/-- **the coded scheme on a general multivector** (scale by `2^j ≥ ‖X‖₁`, 15 terms, `j` squarings) against the same scheme with any
+number `M ≥ 15` of terms: `≤ 2^j·3^(2^j−1)·2/15!` in the ℓ¹ norm, uniformly in `M`. (The limit `M → ∞` — the exponential itself —
+is not formalised for multivectors: partial.) -/
+theorem exp_scheme_general_partial {n : Nat} {sig : Nat → ℚ} (hsig : ∀ i, |sig i| ≤ 1) (X : Cl n sig) (j : Nat) (h : L1.l1 X ≤ 2 ^ j)
+    (M : Nat) (hM : 15 ≤ M) :
+    L1.l1 ((expTrunc M (((1 : ℚ) / 2 ^ j) • X)) ^ (2 ^ j) - (expTrunc 15 (((1 : ℚ) / 2 ^ j) • X)) ^ (2 ^ j))
+      ≤ ((2 ^ j : ℕ) : ℚ) * 3 ^ (2 ^ j - 1) * (2 / ((15 : ℕ).factorial : ℚ)) := L1.scheme_error hsig X j h M hM
+
+/-- non-vacuity: the Euclidean, Minkowski and degenerate signatures all satisfy `|sig i| ≤ 1` -/
+example : (∀ i : ℕ, |((fun _ => 1 : ℕ → ℚ)) i| ≤ 1) ∧ (∀ i : ℕ, |((fun i => if i = 0 then -1 else if i = 1 then 0 else 1 : ℕ → ℚ)) i| ≤ 1) := by
+  refine ⟨fun i => by simp, fun i => ?_⟩
+  by_cases h0 : i = 0 <;> by_cases h1 : i = 1 <;> simp [h0, h1]
 
 end C16
